@@ -93,7 +93,7 @@ def main():
             continue
         for k in total:
             total[k] += st[k]
-        lab = lambda k: str(k) if k <= 9 else chr(ord('a') + k - 10)
+        lab = lambda k: str(k) if k <= 8 else chr(ord('a') + k - 9)
         line = '**%s (`_%s`, `_%s`): %d changes** — %d detected with a failing input by the check as it stood, %d after it was strengthened' % (
             title, lab(lo), lab(hi), st['n'], st['first'], st['after'])
         if st['nfi'] or st['missed']:
@@ -113,7 +113,7 @@ def main():
         print('DESIGN.md tables rewritten')
     else:
         print(block)
-    print('rounds 2-4: %(n)d changes, %(first)d as first written, %(after)d after strengthening, %(nfi)d without failing input, '
+    print('rounds 2 and later: %(n)d changes, %(first)d as first written, %(after)d after strengthening, %(nfi)d without failing input, '
           '%(missed)d not detected' % total)
 
 
